@@ -238,6 +238,7 @@ type tmplPart struct {
 }
 
 type tmplHost struct {
+	preexisting bool // created before footprint tracking began
 	name       string
 	missingErr bool
 	parts      []tmplPart
@@ -481,7 +482,9 @@ func initLibStubs() {
 	reg := func(name string, f intrinsicFn) { namedIntrinsics[name] = f }
 	reg("text/template.New", func(ex *Exec, fn *ssa.Function, args []Value, caller *Frame) Value {
 		cell := new(Value)
-		*cell = &Host{Kind: "template", Data: &tmplHost{name: concArg(ex, args[0], "template.New")}}
+		// a template made before write tracking began (package initialiser,
+		// set-up) is process-wide: parsing into it later is a write to it
+		*cell = &Host{Kind: "template", Data: &tmplHost{name: concArg(ex, args[0], "template.New"), preexisting: !ex.trackFoot}}
 		return Ptr{P: cell}
 	})
 	reg("(*text/template.Template).Option", func(ex *Exec, fn *ssa.Function, args []Value, caller *Frame) Value {
@@ -502,6 +505,9 @@ func initLibStubs() {
 	})
 	reg("(*text/template.Template).Parse", func(ex *Exec, fn *ssa.Function, args []Value, caller *Frame) Value {
 		t := ex.tmplOf(args[0])
+		if ex.trackFoot && t.preexisting {
+			ex.oblige(ex.ts.False(), "footprint: write to a text/template object that existed before the sessions began (Parse replaces its body)")
+		}
 		err := ex.parseTemplate(t, strArg(ex, args[1], "template.Parse"))
 		if iv := err.(Iface); iv.T != nil {
 			return Tuple{Ptr{}, err}
